@@ -9,7 +9,10 @@ THEOREMS = [_T + n for n in [
     "lex_src", "lex_line_invariant", "scan_total", "text_verbatim", "text_only_output", "escape_sequences",
     "triple_brace_innermost", "parse_error_line", "unterminated_error_line",
     "filter_all_identity", "filter_oneline_idempotent", "filter_idempotent",
+    "filter_single_idempotent", "filter_whitespace_idempotent",
     "gen_balanced", "gen_stack_balanced", "control_body_nonempty",
+    "interp_matches_gen_structure_partial", "interp_matches_gen_outcome_partial",
+    "parse_flat_roundtrip", "bytes_literal_roundtrip",
 ]]
 TRUSTED = [
     "CPython executes the generated source as Python defines (exec of Template.code); the generated source itself is "
@@ -39,17 +42,23 @@ EXHAUSTIVE = {"quick": False, "thorough": False}
 CLAUSES = {
     "generating yields the output a direct interpretation defines":
         "tie: Lean Gen == Template.code line by line (stream i) and Spec.render (Interp) == Template.generate() (stream ii); "
-        "gen_balanced, control_body_nonempty, gen_stack_balanced; interp_matches_gen_structure_goal is tie only",
+        "gen_balanced, control_body_nonempty, gen_stack_balanced; interp_matches_gen_structure_partial / "
+        "interp_matches_gen_outcome_partial: on the decidable fragment `frag` (text, expression, raw/module, if/elif/else, "
+        "for/else over finite lists, set, break, continue, any whitespace mode and autoescape function) the interpreter's outcome equals the "
+        "denotation `pyRun` of the generated line list (parse_flat_roundtrip, bytes_literal_roundtrip are its generic parts); "
+        "outside the fragment (apply, block/extends/include, while, try, import) tie only "
+        "(interp_matches_gen_structure_goal)",
     "templates that are not well-formed raise a ParseError naming the correct line":
         "parse_error_line, unterminated_error_line, lex_line_invariant + fault-injection oracle (file and line span of the injected fault)",
     "literal text is reproduced byte-for-byte apart from the selected whitespace filtering":
-        "lex_src, text_verbatim, text_only_output, escape_sequences, triple_brace_innermost, filter_all_identity, filter_idempotent (all/oneline); idempotence of mode single: tie only (filter_single_idempotent_goal, checked on every filter case)",
+        "lex_src, text_verbatim, text_only_output, escape_sequences, triple_brace_innermost, filter_all_identity, filter_single_idempotent, filter_whitespace_idempotent (all three modes; also checked on every filter case)",
     "termination of the reader": "scan_total (structural recursion, no fuel) + lex_src",
 }
 PARALLEL = False   # measured: 2600 cases take 3 s in-process, 20 s through a fork pool
 CASE_TIMEOUT = 20
-LEVEL_NOTE = ("interp_matches_gen_structure (semantics of the generated Python) is a stretch goal kept as a Prop; "
-              "it is covered by the two tie streams")
+LEVEL_NOTE = ("interp_matches_gen_structure (semantics of the generated Python) is proved on the fragment `frag` "
+              "(interp_matches_gen_structure_partial, sem = pyRun of PySem.lean); for apply/block/include/while/try it "
+              "stays a Prop covered by the two tie streams")
 
 # ----------------------------------------------------------------------------------------------- pools
 WS_MODES = ["all", "single", "oneline"]
